@@ -138,6 +138,68 @@ def _structure(body: List[ast.stmt]) -> List[ast.stmt]:
     return out
 
 
+def _static_generator(fn: ast.FunctionDef) -> bool:
+    """a new generator whose body is nothing but `yield <name>` / `yield from <name>` statements enumerates a fixed sequence: it becomes
+    `return (*a, b, c)` - the same elements in the same order (the operands are plain names / attribute chains, so evaluating them up front
+    instead of one by one changes nothing a caller can see short of re-binding them during the iteration)"""
+    if fn.decorator_list:
+        return False
+    body = list(fn.body)
+    if body and isinstance(body[0], ast.Expr) and isinstance(body[0].value, ast.Constant) and isinstance(body[0].value.value, str):
+        body = body[1:]
+    if not body:
+        return False
+    elts: List[ast.expr] = []
+    for st in body:
+        if not (isinstance(st, ast.Expr) and isinstance(st.value, (ast.Yield, ast.YieldFrom)) and st.value.value is not None and _pure(st.value.value)):
+            return False
+        v = st.value.value
+        elts.append(ast.Starred(value=v, ctx=ast.Load()) if isinstance(st.value, ast.YieldFrom) else v)
+    ret = ast.copy_location(ast.Return(value=ast.Tuple(elts=elts, ctx=ast.Load())), body[0])
+    ast.fix_missing_locations(ret)
+    fn.body = [ret]
+    return True
+
+
+_YIELD = "__jv_yield"
+
+
+def _generator_skeleton(fn: ast.FunctionDef) -> Optional[ast.FunctionDef]:
+    """a new generator whose yields are all statements (`yield e` / `yield from e`), which never returns early: a copy of it in which every
+    `yield e` is the placeholder `__jv_yield = e` (and `yield from e` a loop around one).  Splicing that copy into a `for x in gen(...): BODY`
+    statement and putting `x = <placeholder value>; BODY` at each placeholder is the loop exactly - the body runs where the generator is
+    suspended - provided BODY neither breaks nor continues."""
+    ys = [x for x in ast.walk(fn) if isinstance(x, (ast.Yield, ast.YieldFrom))]
+    if not ys or any(isinstance(x, ast.Return) for x in ast.walk(fn)):
+        return None
+    cp = copy.deepcopy(fn)
+    ok = [True]
+
+    class Y(ast.NodeTransformer):
+        def visit_Expr(self, node: ast.Expr):
+            v = node.value
+            if isinstance(v, ast.Yield):
+                val = v.value if v.value is not None else ast.Constant(value=None)
+                if any(isinstance(x, (ast.Yield, ast.YieldFrom)) for x in ast.walk(val)):
+                    ok[0] = False
+                return ast.copy_location(ast.Assign(targets=[ast.Name(id=_YIELD, ctx=ast.Store())], value=val, type_comment=None), node)
+            if isinstance(v, ast.YieldFrom):
+                if any(isinstance(x, (ast.Yield, ast.YieldFrom)) for x in ast.walk(v.value)):
+                    ok[0] = False
+                inner = ast.Assign(targets=[ast.Name(id=_YIELD, ctx=ast.Store())], value=ast.Name(id=_YIELD + "_from", ctx=ast.Load()), type_comment=None)
+                return ast.copy_location(ast.For(target=ast.Name(id=_YIELD + "_from", ctx=ast.Store()), iter=v.value, body=[inner], orelse=[], type_comment=None), node)
+            return node
+
+        def visit_Lambda(self, node):
+            return node
+
+    cp = Y().visit(cp)
+    if not ok[0] or any(isinstance(x, (ast.Yield, ast.YieldFrom)) for x in ast.walk(cp)):
+        return None  # a yield used as an expression (its value is what send() passes in)
+    ast.fix_missing_locations(cp)
+    return cp
+
+
 def _inlinable(fn: ast.FunctionDef, method: bool = False) -> Optional[List[ast.stmt]]:
     decs = [ast.unparse(d) for d in fn.decorator_list]
     if (decs and not (method and decs in (["staticmethod"], ["classmethod"]))) or fn.args.vararg or fn.args.kwarg or fn.args.posonlyargs:
@@ -180,6 +242,12 @@ class _Subst(ast.NodeTransformer):
             if hasattr(node, "_jv_module"):
                 nn._jv_module = node._jv_module  # type: ignore[attr-defined]
             return nn
+        return node
+
+    def visit_ExceptHandler(self, node: ast.ExceptHandler):
+        self.generic_visit(node)
+        if node.name and node.name in self.rename:
+            node.name = self.rename[node.name]
         return node
 
 
@@ -280,6 +348,7 @@ def package_helpers(parsed: List[Tuple[str, ast.Module]], ambiguous: Set[str]):
     for module, tree in parsed:
         for st in tree.body:
             if isinstance(st, ast.FunctionDef) and f"{module}:{st.name}" not in ref:
+                _static_generator(st)
                 b = _inlinable(st)
                 if b is not None:
                     funcs[(module, st.name)] = (st, b)
@@ -304,6 +373,8 @@ class Inliner:
         self.counter = 0
         ref = reference_functions()
         self.helpers: Dict[str, Tuple[ast.FunctionDef, List[ast.stmt]]] = {}
+        self.gen_helpers: Dict[str, Tuple[ast.FunctionDef, List[ast.stmt]]] = {}  # new generator functions (skeletons), for `for x in g(..)` statements only
+        self.gen_methods: Dict[Tuple[str, str], Tuple[ast.FunctionDef, List[ast.stmt]]] = {}
         self.keep: Set[str] = set()  # names some module of the package imports: never dropped
         self.pkg_bindings = pkg_bindings or {}
         self.mine = module_bindings(tree, module, is_package)
@@ -311,9 +382,16 @@ class Inliner:
         self.foreign: Dict[int, str] = {}  # id(FunctionDef) -> module it lives in, for helpers of other modules
         for st in tree.body:
             if isinstance(st, ast.FunctionDef) and f"{module}:{st.name}" not in ref:
+                _static_generator(st)
                 b = _inlinable(st)
                 if b is not None:
                     self.helpers[st.name] = (st, b)
+                else:
+                    sk = _generator_skeleton(st)
+                    bs = _inlinable(sk) if sk is not None else None
+                    if sk is not None and bs is not None:
+                        sk._jv_orig = st  # type: ignore[attr-defined]
+                        self.gen_helpers[st.name] = (sk, bs)
         # helpers of other modules of the package, under the name they are imported by (`from .x import helper [as h]`)
         if pkg_funcs:
             base = module.split(".") if module else []
@@ -338,17 +416,31 @@ class Inliner:
                     defined[st.name] = defined.get(st.name, 0) + 1
         for c in classes:
             for st in c.body:
-                if isinstance(st, ast.FunctionDef) and f"{module}:{c.name}.{st.name}" not in ref and defined.get(st.name) == 1 and not st.name.startswith("__") \
+                if isinstance(st, ast.FunctionDef) and f"{module}:{c.name}.{st.name}" not in ref and defined.get(st.name) == 1 and not (st.name.startswith("__") and st.name.endswith("__")) \
                         and st.name not in (self_amb or set()):
                     b = _inlinable(st, method=True)
                     if b is not None:
                         self.methods[(c.name, st.name)] = (st, b)
+                if isinstance(st, ast.FunctionDef) and f"{module}:{c.name}.{st.name}" not in ref and defined.get(st.name) == 1 and not st.decorator_list \
+                        and (not st.name.startswith("__") or not st.name.endswith("__")) and st.name not in (self_amb or set()) and (c.name, st.name) not in self.methods:
+                    sk = _generator_skeleton(st)
+                    bs = _inlinable(sk, method=True) if sk is not None else None
+                    if sk is not None and bs is not None:
+                        sk._jv_orig = st  # type: ignore[attr-defined]
+                        self.gen_methods[(c.name, st.name)] = (sk, bs)
+        self.cur_fn: Optional[ast.FunctionDef] = None
         self.cls_stack: List[Tuple[str, Optional[str]]] = []  # (class name, self / cls name of the method being processed)
         self.unique_methods: Dict[str, Tuple[ast.FunctionDef, List[ast.stmt]]] = {}
         ref_names = {r.split(".")[-1] for r in ref if "." in r.split(":")[-1]}
         for (cname_, mname), (fn_, b_) in self.methods.items():
             if not fn_.decorator_list and mname not in ref_names and mname not in (ambiguous or set()) and not any(hasattr(t_, mname) for t_ in (dict, list, str, bytes, set, tuple, int, float, object, bytearray)):
                 self.unique_methods[mname] = (fn_, b_)
+        # a new static method with a name no other class uses, called through any receiver (`self.m(..)` in a subclass): nothing is bound
+        self.unique_static: Dict[str, Tuple[ast.FunctionDef, List[ast.stmt]]] = {}
+        for (cname_, mname), (fn_, b_) in self.methods.items():
+            if [ast.unparse(d) for d in fn_.decorator_list] == ["staticmethod"] and mname.startswith("_") and mname not in ref_names and mname not in (ambiguous or set()) \
+                    and not any(hasattr(t_, mname) for t_ in (dict, list, str, bytes, set, tuple, int, float, object, bytearray)):
+                self.unique_static[mname] = (fn_, b_)
         if pkg_meths:
             for mname, (mod_, fn_, b_) in pkg_meths.items():
                 if mname not in self.unique_methods and (mod_ == module or self._namespace_ok(fn_, mod_)):
@@ -393,6 +485,9 @@ class Inliner:
                 if decs == ["staticmethod"]:
                     return fn, body, None
                 return fn, body, f.value
+        if isinstance(f, ast.Attribute) and _pure(f.value) and f.attr in self.unique_static:
+            fn, body = self.unique_static[f.attr]
+            return fn, body, None
         # `x.m(...)` on any receiver, when m is a new instance method defined by exactly one class of the whole package and its name is not
         # an attribute of a builtin container / scalar type (so that the call cannot mean anything else)
         if isinstance(f, ast.Attribute) and _pure(f.value) and f.attr in self.unique_methods:
@@ -437,8 +532,75 @@ class Inliner:
         return new
 
     # ------------------------------------------------------------------------------------------- statement mode
-    def _splice(self, call: ast.Call, target: Optional[ast.expr], as_return: bool) -> Optional[List[ast.stmt]]:
-        cal = self._callee(call)
+    def _gen_callee(self, call: ast.Call):
+        f = call.func
+        if isinstance(f, ast.Name) and f.id in self.gen_helpers:
+            fn, body = self.gen_helpers[f.id]
+            return fn, body, None
+        if isinstance(f, ast.Attribute) and isinstance(f.value, ast.Name) and self.cls_stack:
+            cname, sname = self.cls_stack[-1][0], self.cls_stack[-1][1]
+            if sname is not None and f.value.id == sname and (cname, f.attr) in self.gen_methods and self.cls_stack[-1][2] == "method":
+                fn, body = self.gen_methods[(cname, f.attr)]
+                return fn, body, f.value
+        return None
+
+    def _for_over_generator(self, st: ast.For) -> Optional[List[ast.stmt]]:
+        """`for x in gen(...): BODY` with a new generator gen: the generator's body with `x = <yielded>; BODY` where it yields"""
+        if st.orelse or not isinstance(st.iter, ast.Call):
+            return None
+        cal = self._gen_callee(st.iter)
+        if cal is None:
+            return None
+        if any(isinstance(x, (ast.Break, ast.Continue, ast.Yield, ast.YieldFrom)) for b in st.body for x in ast.walk(b)):
+            return None
+        fn = cal[0]
+        nyield = sum(1 for x in ast.walk(fn) if isinstance(x, ast.Assign) and isinstance(x.targets[0], ast.Name) and x.targets[0].id == _YIELD)
+        if nyield * sum(1 for b in st.body for _ in ast.walk(b)) > 600:
+            return None
+        # names the loop body binds must not meet the generator's own locals (those are renamed apart by the splice) - and the generator must
+        # not read a caller local the body re-binds: it cannot, its free names are globals
+        sp = self._splice(st.iter, None, False, cal=cal)
+        if sp is None:
+            return None
+        tgt, body = st.target, st.body
+        # a loop variable nobody reads after the loop gets a name of its own at each yield (so that each is a single-assignment temporary)
+        fresh = False
+        if isinstance(tgt, ast.Name) and self.cur_fn is not None:
+            inside = {id(x) for x in ast.walk(st)}
+            fresh = not any(isinstance(x, ast.Name) and x.id == tgt.id and id(x) not in inside for x in ast.walk(self.cur_fn)) \
+                and not any(isinstance(x, (ast.FunctionDef, ast.Lambda, ast.Global, ast.Nonlocal)) for b in body for x in ast.walk(b))
+        inl = self
+
+        class P(ast.NodeTransformer):
+            def visit_Assign(self, node: ast.Assign):
+                if len(node.targets) == 1 and isinstance(node.targets[0], ast.Name) and node.targets[0].id.startswith(_YIELD) and not node.targets[0].id.startswith(_YIELD + "_from"):
+                    t_ = copy.deepcopy(tgt)
+                    bs = [copy.deepcopy(b) for b in body]
+                    if fresh:
+                        inl.counter += 1
+                        nn = f"{tgt.id}__y{inl.counter}"
+                        t_ = ast.Name(id=nn, ctx=ast.Store())
+                        for b in bs:
+                            for x in ast.walk(b):
+                                if isinstance(x, ast.Name) and x.id == tgt.id:
+                                    x.id = nn
+                    first = ast.copy_location(ast.Assign(targets=[t_], value=node.value, type_comment=None), st)
+                    return [first] + bs
+                return node
+
+            def visit_FunctionDef(self, node):
+                return node
+
+        out: List[ast.stmt] = []
+        for x in sp:
+            r = P().visit(x)
+            out.extend(r if isinstance(r, list) else [r])
+        for x in out:
+            ast.fix_missing_locations(x)
+        return out
+
+    def _splice(self, call: ast.Call, target: Optional[ast.expr], as_return: bool, cal=None) -> Optional[List[ast.stmt]]:
+        cal = cal if cal is not None else self._callee(call)
         if cal is None:
             return None
         fn, body, recv = cal
@@ -555,6 +717,13 @@ class Inliner:
                 h.body = self.process_block(h.body)
         if isinstance(st, (ast.FunctionDef, ast.AsyncFunctionDef, ast.ClassDef)):
             return [st]
+        lp = self._comp_to_loop(st)
+        if lp is not None:
+            return self.process_block(lp)
+        if isinstance(st, ast.For):
+            lp = self._for_over_generator(st)
+            if lp is not None:
+                return self.process_block(lp)
         # whole-value forms
         if isinstance(st, ast.Assign) and len(st.targets) == 1 and isinstance(st.value, ast.Call) and (isinstance(st.targets[0], ast.Name) or (
                 isinstance(st.targets[0], ast.Tuple) and all(isinstance(t_, ast.Name) for t_ in st.targets[0].elts))):
@@ -602,6 +771,62 @@ class Inliner:
             break  # only the first head field is evaluated first
         return [st]
 
+    _CONSUMERS = ("list", "tuple", "sorted", "set", "frozenset", "dict", "extend", "join", "update")
+
+    def _comp_to_loop(self, st: ast.stmt) -> Optional[List[ast.stmt]]:
+        """`v = [h(x) for x in it if c]` with a new helper h in the element: the comprehension becomes the loop it abbreviates (a fresh list, one
+        append per element), so that the helper can be spliced like at any other call site.  Only where the comprehension is the first impure
+        thing the statement evaluates; a generator expression only as the sole argument of a consumer that exhausts it at once."""
+        if isinstance(st, (ast.If, ast.While)):
+            return None
+        heads = _head_fields(st)
+        if not heads:
+            return None
+        e = getattr(st, heads[0])
+        if e is None:
+            return None
+        comp = _first_comp(e, self._CONSUMERS)
+        if comp is None or len(comp.generators) != 1 or comp.generators[0].is_async:
+            return None
+        g = comp.generators[0]
+        if not any(isinstance(x, ast.Call) and self._callee(x) is not None for part in [comp.elt] + list(g.ifs) for x in ast.walk(part)):
+            return None
+        if any(isinstance(x, (ast.NamedExpr, ast.Yield, ast.YieldFrom, ast.Await, ast.Lambda)) for x in ast.walk(comp)):
+            return None
+        # the loop variable of a comprehension is its own; in loop form it must not meet a name of the enclosing function
+        names = {x.id for x in ast.walk(g.target) if isinstance(x, ast.Name)}
+        outer = set()
+        if self.cur_fn is not None:
+            inside = {id(x) for x in ast.walk(comp)}
+            outer = {x.id for x in ast.walk(self.cur_fn) if isinstance(x, ast.Name) and id(x) not in inside} | {a.arg for a in ast.walk(self.cur_fn.args) if isinstance(a, ast.arg)}
+        ren = {}
+        for nm in names & outer:
+            self.counter += 1
+            ren[nm] = f"{nm}__c{self.counter}"
+        if ren:
+            class Rn(ast.NodeTransformer):
+                def visit_Name(self, node):
+                    if node.id in ren:
+                        return ast.copy_location(ast.Name(id=ren[node.id], ctx=node.ctx), node)
+                    return node
+            g.target = Rn().visit(g.target)
+            comp.elt = Rn().visit(comp.elt)
+            g.ifs = [Rn().visit(c) for c in g.ifs]
+        tmp = self._fresh(comp)  # type: ignore[arg-type]
+        app: ast.stmt = ast.Expr(value=ast.Call(func=ast.Attribute(value=ast.Name(id=tmp.id, ctx=ast.Load()), attr="append", ctx=ast.Load()), args=[comp.elt], keywords=[]))
+        for c in reversed(g.ifs):
+            app = ast.If(test=c, body=[app], orelse=[])
+        loop = ast.For(target=g.target, iter=g.iter, body=[app], orelse=[], type_comment=None)
+        for x in ast.walk(g.target):
+            if isinstance(x, (ast.Name, ast.Tuple, ast.List, ast.Starred)):
+                x.ctx = ast.Store()
+        init = ast.Assign(targets=[tmp], value=ast.List(elts=[], ctx=ast.Load()), type_comment=None)
+        for n_ in (init, loop):
+            ast.copy_location(n_, st)
+            ast.fix_missing_locations(n_)
+        _replace_node(st, heads[0], comp, ast.copy_location(ast.Name(id=tmp.id, ctx=ast.Load()), comp))
+        return [init, loop, st]
+
     def _try_expr(self, call: ast.Call) -> Optional[ast.expr]:
         """does expression mode apply to this whole-value call?  (then _rewrite_exprs substitutes it; otherwise the body is spliced)"""
         cal = self._callee(call)
@@ -641,7 +866,8 @@ class Inliner:
         return None
 
     def run(self) -> ast.Module:
-        if not self.helpers and not self.methods and not self.unique_methods:
+        nested = any(isinstance(y, ast.FunctionDef) for x in ast.walk(self.tree) if isinstance(x, ast.FunctionDef) for y in x.body)
+        if not self.helpers and not self.methods and not self.unique_methods and not self.unique_static and not nested and not self.gen_helpers and not self.gen_methods:
             return self.tree
 
         def visit(body: List[ast.stmt], cname: Optional[str]) -> None:
@@ -652,13 +878,32 @@ class Inliner:
                     decs = [ast.unparse(d) for d in node.decorator_list]
                     sname = node.args.args[0].arg if (cname and node.args.args and "staticmethod" not in decs) else None
                     self.cls_stack.append((cname or "", sname, "classmethod" if "classmethod" in decs else ("staticmethod" if "staticmethod" in decs else "method")))
+                    self.cur_fn = node
+                    # a closure defined in the body and only ever called there by name is a helper of this one function: its free names are
+                    # read when it runs, which is where the spliced copy reads them
+                    local: Dict[str, Tuple[ast.FunctionDef, List[ast.stmt]]] = {}
+                    for st in node.body:
+                        if isinstance(st, ast.FunctionDef) and st.name not in self.helpers:
+                            b = _inlinable(st)
+                            uses = [x for x in ast.walk(node) if isinstance(x, ast.Name) and x.id == st.name]
+                            called = {id(c.func) for c in ast.walk(node) if isinstance(c, ast.Call)}
+                            ndefs = sum(1 for x in ast.walk(node) if isinstance(x, (ast.FunctionDef, ast.ClassDef)) and x.name == st.name)
+                            inner = {id(x) for g in ast.walk(node) if isinstance(g, (ast.FunctionDef, ast.Lambda)) and g is not node for x in ast.walk(g)}
+                            if b is not None and uses and ndefs == 1 and all(id(u) in called and isinstance(u.ctx, ast.Load) and id(u) not in inner for u in uses):
+                                local[st.name] = (st, b)
+                    self.helpers.update(local)
                     node.body = self.process_block(node.body)
+                    for nm, (lf, _b) in local.items():
+                        del self.helpers[nm]
+                        if not any(isinstance(x, ast.Name) and x.id == nm for x in ast.walk(node)):
+                            node.body = [st for st in node.body if st is not lf] or [ast.Pass()]
                     self.cls_stack.pop()
 
         visit(self.tree.body, None)
         # ... and a private method whose every self. / cls. call was replaced (no attribute access of that name is left in this module, and no other
         # module uses the name - `keep` holds the attribute names other modules use)
-        for (cname, mname), (fn, _b) in list(self.methods.items()):
+        for (cname, mname), (fn, _b) in list(self.methods.items()) + list(self.gen_methods.items()):
+            fn = getattr(fn, "_jv_orig", fn)
             if mname.startswith("_") and mname in self.inlined and mname not in self.keep:
                 left = [x for x in ast.walk(self.tree) if isinstance(x, ast.Attribute) and x.attr == mname] + \
                        [x for x in ast.walk(self.tree) if isinstance(x, ast.Constant) and x.value == mname]
@@ -688,7 +933,8 @@ class Inliner:
             self.tree.body[at:at] = imports
         # a private helper whose every call was replaced is dead code now: drop it, so that no rule judges a function nobody calls
         # (Program checks that no other module imports it)
-        for name, (fn, _b) in list(self.helpers.items()):
+        for name, (fn, _b) in list(self.helpers.items()) + list(self.gen_helpers.items()):
+            fn = getattr(fn, "_jv_orig", fn)
             if name.startswith("_") and name in self.inlined and id(fn) not in self.foreign and name not in self.keep:
                 refs = [x for x in ast.walk(self.tree) if isinstance(x, ast.Name) and x.id == name] + \
                        [x for x in ast.walk(self.tree) if isinstance(x, ast.Attribute) and x.attr == name]
@@ -773,6 +1019,58 @@ def _eval_order(e: ast.AST) -> List[ast.AST]:
             break
         res.append(x)
     return res
+
+
+_BLOCK = object()
+
+
+def _first_comp(e: ast.expr, consumers: Tuple[str, ...]):
+    """the list comprehension (or generator expression handed whole to a consumer that exhausts it at once) that is the first impure thing e
+    evaluates; None when something impure comes first or evaluation is conditional"""
+
+    def find(x: ast.AST):
+        if isinstance(x, ast.ListComp):
+            return x
+        if isinstance(x, (ast.Name, ast.Constant)):
+            return None
+        if isinstance(x, ast.BoolOp):
+            return find(x.values[0]) or _BLOCK
+        if isinstance(x, ast.IfExp):
+            return find(x.test) or _BLOCK
+        if isinstance(x, (ast.Lambda, ast.SetComp, ast.DictComp, ast.GeneratorExp, ast.NamedExpr, ast.Await, ast.Yield, ast.YieldFrom)):
+            return _BLOCK
+        if isinstance(x, ast.Call):
+            if not isinstance(x.func, ast.Name):
+                r = find(x.func)
+                if r is not None:
+                    return r
+            if len(x.args) == 1 and not x.keywords and isinstance(x.args[0], ast.GeneratorExp) and \
+                    (x.func.id if isinstance(x.func, ast.Name) else getattr(x.func, "attr", "")) in consumers:
+                return x.args[0]
+            for a in list(x.args) + [k.value for k in x.keywords]:
+                r = find(a)
+                if r is not None:
+                    return r
+            return _BLOCK
+        if isinstance(x, ast.Dict):
+            for k, v in zip(x.keys, x.values):
+                for y in (k, v):
+                    if y is not None:
+                        r = find(y)
+                        if r is not None:
+                            return r
+            return None
+        for c in ast.iter_child_nodes(x):
+            if isinstance(c, ast.expr):
+                r = find(c)
+                if r is not None:
+                    return r
+        if isinstance(x, (ast.Tuple, ast.List, ast.Set, ast.Starred, ast.JoinedStr, ast.FormattedValue)) or _pure(x):
+            return None
+        return _BLOCK
+
+    r = find(e)
+    return None if r is _BLOCK else r
 
 
 def _first_evaluated(e: ast.expr, name: ast.Name) -> bool:
